@@ -50,7 +50,7 @@ ASSUMPTIONS = [
 
 
 def plan(tier: str) -> dict[str, Any]:
-    n = 100 if tier == "quick" else 8000
+    n = 300 if tier == "quick" else 20000
     return {"cases": n, "budget_s": 120 if tier == "quick" else 1500, "min_per_shard": 4}
 
 
